@@ -770,6 +770,31 @@ func init() {
 		if active != 1 {
 			x.viol("C09", x.scn+"/active-keysets", "%d active keysets after the rotation", active)
 		}
+		// the request decides which keyset signs in the step it is resumed from its last read (GetBlindSignatures); if every
+		// step of the rotation came before that step, the rotation was complete and the old keyset must not sign any more
+		signStep, lastR, rotOK := -1, -1, false
+		for i, d := range x.s.Trace {
+			if d.At == "A:db:GetBlindSignatures" {
+				signStep = i
+			}
+			if strings.HasPrefix(d.At, "R:") {
+				lastR = i
+			}
+		}
+		for _, b := range x.outcomeBits {
+			if b == "R=ok" {
+				rotOK = true
+			}
+		}
+		if rotOK && signStep >= 0 && lastR < signStep && len(x.sigs) > 0 {
+			ids := map[string]bool{}
+			for _, r := range x.sigs {
+				ids[r.sig.Id] = true
+			}
+			if !ids[w.M.ActiveID()] || len(ids) > 1 {
+				x.viol("C09", x.scn+"/signed-on-a-keyset-whose-rotation-was-complete", "the rotation had finished (all its store calls) before the request read the signed-outputs table, its last step before signing, yet it signed on the previous keyset: %s", strings.Join(x.obs, "; "))
+			}
+		}
 		for _, r := range x.sigs {
 			x.outcomeBits = append(x.outcomeBits, r.who+"-signed-on-"+map[bool]string{true: "asked", false: "other"}[r.sig.Id == r.out.Msg.Id])
 			if r.sig.Id != r.out.Msg.Id {
